@@ -6,7 +6,7 @@
    is recorded in the tag mode of a layout; it does not influence the encoder.
    Definitions only. *)
 From Coq Require Import NArith ZArith List Bool String.
-From PTQ Require Import Model.Dtree Spec.Tlb.
+From PTQ Require Import Base.Result Model.Dtree Spec.Tlb.
 Import ListNotations.
 Local Open Scope string_scope.
 
@@ -683,12 +683,178 @@ Definition spec_NftItemSaleData : tlayout :=
       "nft_address" ::: FAddr; "nft_owner_address" ::: FAddr; "full_price" ::: FCoins;
       "fees_cell" ::: ^"NftItemSaleFees"; "can_deploy_by_external" ::: FBool ].
 
+(* ---- step 1: snapshot, inline Hashmap, dispatch, exotic-cell test ---- *)
+
+(* account_descr$_ account:^Account last_trans_hash:bits256 last_trans_lt:uint64 = ShardAccount;
+   (the object also keeps, as `cell`, the cell it was parsed from) *)
+Definition spec_ShardAccount : tlayout :=
+  mkLayout TagBitwise
+    [ mkCtor [] (obj "ShardAccount")
+        [ "account" ::: ^"Account"; "last_trans_hash" ::: FBytes 32; "last_trans_lt" ::: FUint 64 ] ]
+    (Some "cell") SpNo.
+
+(* validators#11 utime_since:uint32 utime_until:uint32 total:(## 16) main:(## 16) { main <= total }
+     { main >= 1 } list:(Hashmap 16 ValidatorDescr) = ValidatorSet;
+   validators_ext#12 utime_since:uint32 utime_until:uint32 total:(## 16) main:(## 16) { main <= total }
+     { main >= 1 } total_weight:uint64 list:(HashmapE 16 ValidatorDescr) = ValidatorSet; *)
+Definition spec_ValidatorSet : tlayout :=
+  mkType (TagChunk (CkBytes 1))
+    [ mkCtor (hex "11") (RObj "ValidatorSet" [("total_weight", CNone); ("type_", CStr "validators")])
+        [ "utime_since" ::: FUint 32; "utime_until" ::: FUint 32; "total" ::: FUint 16; "main" ::: FUint 16;
+          "main" <=! "total"; IGuard GGe (GName "main") (GNum 1);
+          "list" ::: FHashmap 16 (ty "ValidatorDescr") ];
+      mkCtor (hex "12") (tagged_obj "ValidatorSet" "validators_ext")
+        [ "utime_since" ::: FUint 32; "utime_until" ::: FUint 32; "total" ::: FUint 16; "main" ::: FUint 16;
+          "main" <=! "total"; IGuard GGe (GName "main") (GNum 1);
+          "total_weight" ::: FUint 64; "list" ::: FDict 16 (ty "ValidatorDescr") ] ].
+
+(* a constructor that stands for a type (the value is an object of that class) *)
+Local Notation is_a t T := (mkCtor t (RSameCls T) [ "_" ::: ty T ]).
+
+(* trans_ord$0000 ... = TransactionDescr;          trans_storage$0001 ... = TransactionDescr;
+   trans_tick_tock$001 ... = TransactionDescr;     trans_split_prepare$0100 ... = TransactionDescr;
+   trans_split_install$0101 ... = TransactionDescr; trans_merge_prepare$0110 ... = TransactionDescr;
+   trans_merge_install$0111 ... = TransactionDescr;
+   (the fields of each constructor: spec_TransactionOrdinary ... above; the tag is read as load_bits(3)
+   then, unless it is 001, load_bit()) *)
+Definition spec_TransactionDescr : tlayout :=
+  mkType (TagChunks [CkBits 3; CkBit])
+    [ is_a (bin "0000") "TransactionOrdinary";
+      is_a (bin "0001") "TransactionStorage";
+      is_a (bin "001") "TransactionTickTock";
+      is_a (bin "0100") "TransactionSplitPrepare";
+      is_a (bin "0101") "TransactionSplitInstall";
+      is_a (bin "0110") "TransactionMergePrepare";
+      is_a (bin "0111") "TransactionMergeInstall" ].
+
+(* value_flow#b8e48dfb ^[ from_prev_blk:CurrencyCollection to_next_blk:CurrencyCollection
+     imported:CurrencyCollection exported:CurrencyCollection ] fees_collected:CurrencyCollection
+     ^[ fees_imported:CurrencyCollection recovered:CurrencyCollection created:CurrencyCollection
+        minted:CurrencyCollection ] = ValueFlow;
+   value_flow_v2#3ebf98b7 ^[ from_prev_blk:CurrencyCollection to_next_blk:CurrencyCollection
+     imported:CurrencyCollection exported:CurrencyCollection ] fees_collected:CurrencyCollection
+     burned:CurrencyCollection
+     ^[ fees_imported:CurrencyCollection recovered:CurrencyCollection created:CurrencyCollection
+        minted:CurrencyCollection ] = ValueFlow;
+   (deserialize returns None for an exotic cell)
+   (repaired in the library: it used to load both references before reading fees_collected / burned, and so
+   took the dictionary root of their extra currencies for the second group) *)
+Local Notation cc := (ty "CurrencyCollection").
+Definition spec_ValueFlow : tlayout :=
+  mkLayout (TagChunk (CkBytes 4))
+    [ mkCtor (hex "b8e48dfb") (tagged_obj "ValueFlow" "value_flow")
+        [ IGroup [ ("from_prev_blk", cc); ("to_next_blk", cc); ("imported", cc); ("exported", cc) ];
+          "fees_collected" ::: cc;
+          IGroup [ ("fees_imported", cc); ("recovered", cc); ("created", cc); ("minted", cc) ] ];
+      mkCtor (hex "3ebf98b7") (tagged_obj "ValueFlow" "value_flow_v2")
+        [ IGroup [ ("from_prev_blk", cc); ("to_next_blk", cc); ("imported", cc); ("exported", cc) ];
+          "fees_collected" ::: cc; "burned" ::: cc;
+          IGroup [ ("fees_imported", cc); ("recovered", cc); ("created", cc); ("minted", cc) ] ] ]
+    None SpNone.
+
+(* ---- step 2: messages ---- *)
+
+(* int_msg_info$0 ... = CommonMsgInfo;  ext_in_msg_info$10 ... = CommonMsgInfo;
+   ext_out_msg_info$11 ... = CommonMsgInfo;
+   (the fields of each constructor, and its tag: spec_InternalMsgInfo, spec_ExternalMsgInfo,
+   spec_ExternalOutMsgInfo above; CommonMsgInfo.deserialize only looks at the tag: preload_bit(), then
+   preload_bits(2), and hands the slice over) *)
+Definition spec_CommonMsgInfo : tlayout :=
+  mkType TagPeek
+    [ is_a (bin "0") "InternalMsgInfo";
+      is_a (bin "10") "ExternalMsgInfo";
+      is_a (bin "11") "ExternalOutMsgInfo" ].
+
+(* message$_ {X:Type} info:CommonMsgInfo init:(Maybe (Either StateInit ^StateInit))
+     body:(Either X ^X) = Message X;
+   _ (Message Any) = MessageAny;
+   (X = Any inline: the body is what remains of the cell, kept as a cell) *)
+Definition spec_MessageAny : tlayout :=
+  record "MessageAny"
+    [ "info" ::: ty "CommonMsgInfo";
+      "init" ::: FMaybe (FEither (ty "StateInit") (^"StateInit"));
+      "body" ::: FEither FRest FCell ].
+
+(* ---- step 3: transactions, account blocks, inbound message descriptors ---- *)
+
+(* transaction$0111 account_addr:bits256 lt:uint64 prev_trans_hash:bits256 prev_trans_lt:uint64 now:uint32
+     outmsg_cnt:uint15 orig_status:AccountStatus end_status:AccountStatus
+     ^[ in_msg:(Maybe ^(Message Any)) out_msgs:(HashmapE 15 ^(Message Any)) ]
+     total_fees:CurrencyCollection state_update:^(HASH_UPDATE Account)
+     description:^TransactionDescr = Transaction;
+   (the object keeps the address twice, as bytes and as account_addr_hex; out_msgs as the list of the
+   messages in key order; as `cell` the cell it was parsed from; for an exotic cell deserialize returns
+   the cell itself) *)
+Definition spec_Transaction : tlayout :=
+  mkLayout (TagChunk (CkBits 4))
+    [ mkCtor (bin "0111") (obj "Transaction")
+        [ INamedHex "account_addr" "account_addr_hex" 32; "lt" ::: FUint 64;
+          "prev_trans_hash" ::: FBytes 32; "prev_trans_lt" ::: FUint 64; "now" ::: FUint 32;
+          "outmsg_cnt" ::: FUint 15;
+          "orig_status" ::: ty "AccountStatus"; "end_status" ::: ty "AccountStatus";
+          IGroup [ ("in_msg", FMaybe (^"MessageAny")); ("out_msgs", FDictVals 15 (^"MessageAny")) ];
+          "total_fees" ::: cc; "state_update" ::: ^"HashUpdate"; "description" ::: ^"TransactionDescr" ] ]
+    (Some "cell") SpCell.
+
+(* acc_trans#5 account_addr:bits256 transactions:(HashmapAug 64 ^Transaction CurrencyCollection)
+     state_update:^(HASH_UPDATE Account) = AccountBlock;
+   (account_addr is kept as hex only; transactions as the pair (dict, extras) parse_hashmap_aug returns: the
+   extras of ALL the nodes of the tree, in visiting order) *)
+Definition spec_AccountBlock : tlayout :=
+  mkType (TagChunk (CkUint 4))
+    [ mkCtor (hex "5") (obj "AccountBlock")
+        [ "account_addr" ::: FBytesHex 32; "transactions" ::: FAugDict 64 (^"Transaction") cc;
+          "state_update" ::: ^"HashUpdate" ] ].
+
+(* _ (HashmapAugE 256 ShardAccount DepthBalanceInfo) = ShardAccounts;
+   (tree equality only.  ahme_empty$0 extra:Y / ahme_root$1 root:^(HashmapAug n X Y) extra:Y: load_hashmap_aug_e
+   never reads the top-level extra:Y, and for ahme_empty returns ({}, [the slice]); no value is well typed) *)
+Definition spec_ShardAccounts : tlayout :=
+  mkType TagBitwise
+    [ mkCtor [] RSame [ "_" ::: FAugDictE 256 (ty "ShardAccount") (ty "DepthBalanceInfo") ] ].
+
+(* msg_import_ext$000 msg:^(Message Any) transaction:^Transaction = InMsg;
+   msg_import_ihr$010 msg:^(Message Any) transaction:^Transaction ihr_fee:Grams proof_created:^Cell = InMsg;
+   msg_import_imm$011 in_msg:^MsgEnvelope transaction:^Transaction fwd_fee:Grams = InMsg;
+   msg_import_fin$100 in_msg:^MsgEnvelope transaction:^Transaction fwd_fee:Grams = InMsg;
+   msg_import_tr$101  in_msg:^MsgEnvelope out_msg:^MsgEnvelope transit_fee:Grams = InMsg;
+   msg_discard_fin$110 in_msg:^MsgEnvelope transaction_id:uint64 fwd_fee:Grams = InMsg;
+   msg_discard_tr$111 in_msg:^MsgEnvelope transaction_id:uint64 fwd_fee:Grams proof_delivered:^Cell = InMsg;
+   (docstring of class InMsg; not in the shipped block.tlb)
+   msg_import_deferred_fin$00100 in_msg:^MsgEnvelope transaction:^Transaction fwd_fee:Grams = InMsg;
+   msg_import_deferred_tr$00101 in_msg:^MsgEnvelope out_msg:^MsgEnvelope = InMsg;
+   (the tag is read as load_bits(3) then, for 001, load_bits(2)) *)
+Definition spec_InMsg : tlayout :=
+  mkType (TagChunks [CkBits 3; CkBits 2])
+    [ mkCtor (bin "000") (RObj "InMsg" [("in_msg", CNone); ("type_", CStr "msg_import_ext")])
+        [ "msg" ::: ^"MessageAny"; "transaction" ::: ^"Transaction" ];
+      mkCtor (bin "010") (RObj "InMsg" [("in_msg", CNone); ("type_", CStr "msg_import_ihr")])
+        [ "msg" ::: ^"MessageAny"; "transaction" ::: ^"Transaction"; "ihr_fee" ::: FCoins;
+          "proof_created" ::: FCell ];
+      mkCtor (bin "011") (RObj "InMsg" [("msg", CNone); ("type_", CStr "msg_import_imm")])
+        [ "in_msg" ::: ^"MsgEnvelope"; "transaction" ::: ^"Transaction"; "fwd_fee" ::: FCoins ];
+      mkCtor (bin "100") (RObj "InMsg" [("msg", CNone); ("type_", CStr "msg_import_fin")])
+        [ "in_msg" ::: ^"MsgEnvelope"; "transaction" ::: ^"Transaction"; "fwd_fee" ::: FCoins ];
+      mkCtor (bin "101") (RObj "InMsg" [("msg", CNone); ("transaction", CNone); ("type_", CStr "msg_import_tr")])
+        [ "in_msg" ::: ^"MsgEnvelope"; "out_msg" ::: ^"MsgEnvelope"; "transit_fee" ::: FCoins ];
+      mkCtor (bin "110") (RObj "InMsg" [("msg", CNone); ("transaction", CNone); ("type_", CStr "msg_discard_fin")])
+        [ "in_msg" ::: ^"MsgEnvelope"; "transaction_id" ::: FUint 64; "fwd_fee" ::: FCoins ];
+      mkCtor (bin "111") (RObj "InMsg" [("msg", CNone); ("transaction", CNone); ("type_", CStr "msg_discard_tr")])
+        [ "in_msg" ::: ^"MsgEnvelope"; "transaction_id" ::: FUint 64; "fwd_fee" ::: FCoins;
+          "proof_delivered" ::: FCell ];
+      mkCtor (bin "00100") (RObj "InMsg" [("msg", CNone); ("type_", CStr "msg_import_deferred_fin")])
+        [ "in_msg" ::: ^"MsgEnvelope"; "transaction" ::: ^"Transaction"; "fwd_fee" ::: FCoins ];
+      mkCtor (bin "00101")
+        (RObj "InMsg" [("msg", CNone); ("transaction", CNone); ("type_", CStr "msg_import_deferred_tr")])
+        [ "in_msg" ::: ^"MsgEnvelope"; "out_msg" ::: ^"MsgEnvelope" ] ].
+
 (* ------------------------------------------------------------------------------------------------ *)
 (* The table: every layout above whose generated tree equals its compilation (Proofs/TlbProofs.v).
    NOT in the table (findings: the generated tree differs from the compilation of the faithful layout):
    - spec_WorkchainFormat_0, spec_WorkchainFormat_1: the library accepts both tags #0 and #1 for either
      constructor (`if tag not in (0, 1)` in WorkchainFormat.deserialize);
-   - spec_JettonBridgeParams: external_chain_address:bits256 of jetton_bridge_params_v1 is not read. *)
+   - spec_JettonBridgeParams: external_chain_address:bits256 of jetton_bridge_params_v1 is not read;
+   - spec_ShardAccounts (tree equal; the library does not read the top-level extra of a HashmapAugE). *)
 Definition spec_table : stable :=
   [ ("AccStatusChange", [], spec_AccStatusChange);
     ("AccountStatus", [], spec_AccountStatus);
@@ -793,4 +959,13 @@ Definition spec_table : stable :=
     ("HighloadWalletData", [], spec_HighloadWalletData);
     ("NftItemData", [], spec_NftItemData);
     ("NftItemSaleFees", [], spec_NftItemSaleFees);
-    ("NftItemSaleData", [], spec_NftItemSaleData) ].
+    ("NftItemSaleData", [], spec_NftItemSaleData);
+    ("ShardAccount", [], spec_ShardAccount);
+    ("ValidatorSet", [], spec_ValidatorSet);
+    ("TransactionDescr", [], spec_TransactionDescr);
+    ("CommonMsgInfo", [], spec_CommonMsgInfo);
+    ("MessageAny", [], spec_MessageAny);
+    ("Transaction", [], spec_Transaction);
+    ("InMsg", [], spec_InMsg);
+    ("ValueFlow", [], spec_ValueFlow);
+    ("AccountBlock", [], spec_AccountBlock) ].
